@@ -270,7 +270,7 @@ def gen_cfg(rng):
         'autostart': rng.random() < 0.7,
         'autorestart': rng.choice(['false', 'unexpected', 'unexpected', 'true']),
         'exitcodes': rng.choice([[0], [0, 2], [], [1]]),
-        'stopsignal': rng.choice([15, 2, 1, 3]),
+        'stopsignal': rng.choice([15, 2, 1, 3, 9, 10]),
         'stopwaitsecs': rng.choice([0, 1, 3, 10]),
         'stopasgroup': rng.random() < 0.3,
         'killasgroup': rng.random() < 0.4,
